@@ -64,3 +64,8 @@ Qed.
 
 Lemma java_covers_l : java_covers java_tbl java_bval_names.
 Proof. apply java_covers_of_b. vm_compute. reflexivity. Qed.
+
+(* gj0BInt writes every big-integer constant with its exact value (the regenerated thresholds keep the
+   BigInteger.valueOf form inside the Java int) *)
+Lemma java_bint_literal_exact_l : forall small v, denote_blit (emit_bint java_bint_params small v) = Some v.
+Proof. apply emit_bint_exact. vm_compute. reflexivity. Qed.
